@@ -248,12 +248,19 @@ def check_gen_params(spec, ctx, names):
         seq_path = ctx.dir / "seq.json"
         seq_path.write_text(json.dumps(data))
         ctx.label("offset_node_keys")
+    elif not spec["circular"] and spec["rng"] % 3 == 0:
+        # the strand given on the command line (-seq NAME:count ...)
+        seq_path = None
+        ctx.label("sequence_on_command_line")
     else:
         seq_path = ctx.dir / "seq.ig"
         seq_path.write_text("; DNA\ntitle\n" + letters + ("2" if spec["circular"] else "1") + "\n")
     out = ctx.dir / "out.itp"
     try:
-        gen_params(name="mol", outpath=out, inpath=[ctx.dir / "dna.ff"], seq_file=seq_path, dsdna=True)
+        if seq_path is None:
+            gen_params(name="mol", outpath=out, inpath=[ctx.dir / "dna.ff"], seq=[f"{nm}:1" for nm in names], dsdna=True)
+        else:
+            gen_params(name="mol", outpath=out, inpath=[ctx.dir / "dna.ff"], seq_file=seq_path, dsdna=True)
     except Exception as err:
         raise crash("gen_params_dsdna:crash", err)
     if not out.exists():
